@@ -124,6 +124,8 @@ func runC14(c *Ctx) {
 	c10RecursionVisitsEveryField(c, "recursion-visits-every-field")
 	c.rule("manglers-keep-no-state", "(shared with C10) Mangle / Unmangle / ShouldRecurse write nothing reachable from the mangler: the same alias mangler sees the same tag strings again for every field of a re-used struct type and on every reload, and must treat them the same each time", 9)
 	c10ManglersKeepNoState(c, "manglers-keep-no-state")
+	c.rule("memo-key-covers-receiver", "what Mangle / Unmangle / ShouldRecurse of a mangler (or a function below them) write into package-level state is shared by every mangler of that type in the process: a value computed from the mangler's own fields (the alias tags) is stored there only under a key computed from them too", 9)
+	c14MemoKeyCoversReceiver(c, "memo-key-covers-receiver")
 	c14AliasUnmangle(c)
 	c14EzWrapAlways(c, "ez-wrap-always")
 	// every alias tag is rewritten: the loops of Mangle end only by exhaustion (or an error return)
